@@ -617,7 +617,11 @@ class Gen:
         k = r.random()
         if depth <= 0 or k < 0.45:
             src, _ = self.marker(f, len(f.lines) + 1, "int")
-            f.emit(src + suffix, ind)
+            # some source lines LOOK like an import of the library to a word-splitting test (a trailing comment mentioning it)
+            tail = r.choice(["  # keep in sync with the pyteal import above", "  # import pyteal as pt -- see the header"]) if r.random() < 0.1 else ""
+            if tail:
+                self.stats["shape_line_mentions_import"] += 1
+            f.emit(src + suffix + tail, ind)
         elif k < 0.6:
             src, _ = self.marker(f, len(f.lines) + 1, "bytes")
             f.emit(f"pt.Len({src}){suffix}", ind)
